@@ -452,10 +452,12 @@ def _driver_task(ctx, which, diis_states=None):
 
 
 def task_scf_forward0(ctx):
+    """O2: loop contract of the constant-mixing driver (see DriverLoop)."""
     _driver_task(ctx, 0)
 
 
 def task_scf_forward1(ctx):
+    """O2: loop contract of the adaptive-mixing driver (adaptive_mix as a row-wise uninterpreted function; two-steps-back diagonal bookkeeping)."""
     _driver_task(ctx, 1)
 
 
